@@ -44,6 +44,7 @@ fn main() {
     std::panic::set_hook(Box::new(|_| {}));
     let args: Vec<String> = std::env::args().collect();
     let max_threads: usize = args.get(1).and_then(|s| s.parse().ok()).unwrap_or(2);
+    let bound: usize = args.get(2).and_then(|s| s.parse().ok()).filter(|b| *b > 0).unwrap_or(usize::MAX);   // 0 = every schedule
     let mut rep = Rep::new(args.get(3).cloned());
     let mut scenarios: Vec<Scenario> = vec![];
     for filter in [false, true] { for initial_services in [0usize, 1] { for initial_publish in [None, Some(1u8)] {
@@ -59,6 +60,8 @@ fn main() {
         }
     }
     for sc in &scenarios {
+        // two-task scenarios: every schedule; three tasks: every schedule with at most `bound` pre-emptions
+        sched::PREEMPTION_BOUND.store(if sc.threads.len() >= 3 { bound } else { usize::MAX }, std::sync::atomic::Ordering::Relaxed);
         let mut prefix: Vec<usize> = vec![];
         let base = format!("scenario={} filter={} services={} published={:?}", sc.name, sc.filter, sc.initial_services, sc.initial_publish);
         // replay of one recorded schedule
